@@ -901,14 +901,16 @@ func fmtFinding(f *finding) any {
 
 var lockFrame = regexp.MustCompile(`sync\.\(\*RWMutex\)\.R?Lock\(.*\n.*\n(?:sync\.[^\n]*\n.*\n)*go\.minekube\.com/gate/pkg/edition/java/proxy\.\(\*Proxy\)\.`)
 
-var parkedHdr = regexp.MustCompile(`\[sync\.RWMutex\.R?Lock(,|\])`)
+// wait reasons: readers park as sync.RWMutex.RLock; writers park on the RWMutex's inner writer
+// mutex (sync.Mutex.Lock) or, once they own it, as sync.RWMutex.Lock
+var parkedHdr = regexp.MustCompile(`\[sync\.(RW)?Mutex\.R?Lock(,|\])`)
 
 func runConcurrent(r *lib.Run) {
 	t0 := time.Now()
 	defer func() { r.Set("conc_wall_s", time.Since(t0).Seconds()) }()
 	n := r.N(1600, 40000)
 	rng := r.Rng("conc")
-	var checked, illegal, explained, unknown, tainted, rejReg, rejCan, admittedN, kicked int
+	var checked, illegal, explained, unknown, tainted, rejReg, rejCan, admittedN, kicked, stuck int
 	sigs := map[string]struct{}{}
 	for hi := 0; hi < n; hi++ {
 		c := genCase(rng)
@@ -1004,7 +1006,7 @@ func runConcurrent(r *lib.Run) {
 		// registry function => no goroutine can ever release it), never the elapsed time.
 		leak := false
 		quiesced := false
-		deadline := time.Now().Add(30 * time.Second)
+		deadline := time.Now().Add(20 * time.Second)
 		lastProg, still := int64(-1), 0
 		tick := time.NewTicker(2 * time.Millisecond)
 	wait:
@@ -1058,6 +1060,11 @@ func runConcurrent(r *lib.Run) {
 		r.Eval(1)
 		if !quiesced {
 			r.Inconclusive(fmt.Sprintf("concurrent history %d did not quiesce within the watchdog (no proof of a leaked lock)", hi))
+			stuck++
+			if stuck >= 5 {
+				r.Inconclusive("concurrent workload abandoned after 5 histories that did not quiesce")
+				break
+			}
 			continue
 		}
 		for _, s := range w.sess {
